@@ -500,6 +500,17 @@ def _await_descriptor_upload(tor_protocol, onion, progress, await_all_uploads):
     # caller can do "d = _await_descriptor_upload()", then add the
     # service.
     yield tor_protocol.add_event_listener('HS_DESC', hs_desc)
+
+    # if the control connection goes away no further HS_DESC event can
+    # arrive: fail the wait instead of waiting forever
+    def connection_lost(reason):
+        if not uploaded.called:
+            uploaded.errback(reason)
+        return None
+    when_disconnected = getattr(tor_protocol, 'when_disconnected', None)
+    if when_disconnected is not None:
+        when_disconnected().addBoth(connection_lost)
+
     try:
         yield uploaded
     finally:
